@@ -581,9 +581,14 @@ pub fn main(args: &[String]) -> i32 {
 	let scratch = PathBuf::from(&args[2]).join("scratch");
 	std::fs::create_dir_all(&scratch).unwrap();
 	let mut ctx = Ctx { out, oracle: String::new(), dist: BTreeMap::new(), n: 0, nontrivial: Default::default(), scratch };
-	let mut rng = Rng::new(seed ^ 0xC17);
 	let mut i = 0u64;
-	while ctx.n < count {
+	let only: Option<u64> = std::env::var("VERIF_ONLY").ok().and_then(|v| v.parse().ok());
+	while ctx.n < count && only.map_or(true, |o| i <= o) {
+		let mut rng = crate::util::case_rng(seed ^ 0xC17, i);
+		if crate::util::skip_case(i) {
+			i += 1;
+			continue
+		}
 		match i % 8 {
 			0..=3 => text_case(&mut ctx, &mut rng),
 			4 | 5 => validate_case(&mut ctx, &mut rng),
